@@ -11,3 +11,5 @@ import PhyloModel.Props.C13
 #print axioms C13.label_position
 #print axioms C13.relabel
 #print axioms C13.relabel_refused
+#print axioms C13.row_unique
+#print axioms C13.float_inverse_correct
